@@ -75,10 +75,14 @@ Section Ellipsoid.
     let r' := nadd r (nmul (nhalf beta) (nsub (nmax r dist) r)) in
     let c' := if neqb dist n0 then c
               else vadd c (vscale (nmul (nhalf beta) (nsub n1 (ndiv (nmin r dist) dist))) (vsub x c)) in
-    let ma' := if neqb r n0 then ma
-               else let v := vsub x c' in
+    (* the pattern that gives a one-point category its extent fixes the major axis; afterwards it is kept
+       (/repo fix "EllipsoidART fixes the major axis with the second pattern and keeps it"; before the fix the axis
+       was left at zero then and overwritten by every later pattern) *)
+    let ma' := if neqb r n0 && nltb n0 r' && forallb (fun a => neqb a n0) ma
+               then let v := vsub x c' in
                     let nv := nsqrt (l2norm2 v) in
-                    if neqb nv n0 then ma else map (fun a => ndiv a nv) v in
+                    if neqb nv n0 then ma else map (fun a => ndiv a nv) v
+               else ma in
     Some (c' ++ ma' ++ [r']).
   Definition el_new (x : list N) : list N := x ++ map (fun _ => n0) x ++ [n0].
 
